@@ -37,6 +37,9 @@
 (*   Crc32Patch(data, pos, target) data with bytes pos+1..pos+4 (1-based)    *)
 (*                                 replaced so that Crc32 = target           *)
 (*   FixOk(data, out, pos, target) post-condition of such a forgery          *)
+(*   CrcRegRuns(P, runs, reg), CrcRuns(P, runs, init, final), Crc32Runs(runs) *)
+(*                                 the same CRCs over run-length encoded     *)
+(*                                 data <<byte, count>>.. (affine powers)    *)
 (*                                                                         *)
 (* Measured in TLC (one worker, 300-byte messages), ms per byte:             *)
 (*   32 bits: tabled 0.04, bitwise 0.6, back bitwise 1.1, back tabled 10;    *)
@@ -171,6 +174,56 @@ Crc32Poly  == W32(60856, 33568)            \* 0xEDB8, 0x8320
 Crc32Ones  == W32(65535, 65535)
 Crc32Table == CrcTable(Crc32Poly)
 Crc32(data) == WXor(CrcRegTabled(Crc32Table, data, Crc32Ones), Crc32Ones)
+
+\* ---- long runs of one byte: the byte step as an affine map, powers by squaring ------------------
+\* The bit step with message bit 0 is GF(2)-linear on the register (shift and conditional xor), so feeding
+\* n equal bytes b is the n-th power of the affine map  reg |-> M8 (reg xor b),  M8 = (zero-bit step)^8.
+\* A linear map on D = 16 Len(P) bits is the tuple of the images of the unit vectors e_0 .. e_(D-1);
+\* an affine map is [m |-> matrix, v |-> word]: x |-> m x xor v.  This is zlib's crc32_combine idea and it
+\* lets TLC evaluate a CRC over megabytes given run-length encoded (2 log2 n matrix products per run).
+\* Runs are pairs <<byte, count>>; ST_CrcThm / MC_Crc check CrcRegRuns = CrcRegBitwise on the expanded data.
+CrcUnit(nl, i) == LET F(j) == IF j = i \div 16 THEN P2[(i % 16) + 1] ELSE 0 IN BuildW(F, 0, nl, <<>>)
+RECURSIVE CrcLinApplyR(_,_,_,_,_)
+CrcLinApplyR(m, x, i, d, acc) ==
+  IF i = d THEN acc ELSE CrcLinApplyR(m, x, i+1, d, IF WBit(x, i) = 1 THEN CrcXor(acc, m[i+1]) ELSE acc)
+CrcLinApply(m, x) == CrcLinApplyR(m, x, 0, Len(m), ZeroW(Len(x)))
+CrcLinMul(a, b) == LET F(i) == CrcLinApply(a, b[i+1]) IN BuildW(F, 0, Len(b), <<>>)        \* first b, then a
+CrcAffApply(f, x) == CrcXor(CrcLinApply(f.m, x), f.v)
+CrcAffMul(f, g) == [m |-> CrcLinMul(f.m, g.m), v |-> CrcXor(CrcLinApply(f.m, g.v), f.v)]   \* first g, then f
+CrcLinId(nl) == LET F(i) == CrcUnit(nl, i) IN BuildW(F, 0, 16 * nl, <<>>)
+CrcAffId(nl) == [m |-> CrcLinId(nl), v |-> ZeroW(nl)]
+RECURSIVE CrcAffPow(_,_,_)
+CrcAffPow(f, n, nl) ==                                   \* f applied n times (n >= 0), recursion depth log2 n
+  IF n = 0 THEN CrcAffId(nl)
+  ELSE IF n = 1 THEN f
+  ELSE LET h == CrcAffPow(f, n \div 2, nl)  hh == CrcAffMul(h, h)
+       IN IF n % 2 = 1 THEN CrcAffMul(f, hh) ELSE hh
+CrcBitStepLin(P) == LET nl == Len(P)  F(i) == CrcStepBit(P, CrcUnit(nl, i), 0) IN BuildW(F, 0, 16 * nl, <<>>)
+CrcByteStepLin(P) == LET m1 == CrcBitStepLin(P)  m2 == CrcLinMul(m1, m1)  m4 == CrcLinMul(m2, m2) IN CrcLinMul(m4, m4)
+CrcByteAff(M8, nl, b) ==                                 \* reg |-> M8 (reg xor b)
+  [m |-> M8, v |-> CrcLinApply(M8, [ZeroW(nl) EXCEPT ![1] = b])]
+RECURSIVE CrcRepeatR(_,_,_,_)
+CrcRepeatR(P, reg, b, n) == IF n = 0 THEN reg ELSE CrcRepeatR(P, CrcByteBitwise(P, reg, b), b, n-1)
+CrcRunStep(P, M8, reg, b, n) ==                          \* register after n bytes b
+  IF n <= 12 THEN CrcRepeatR(P, reg, b, n) ELSE CrcAffApply(CrcAffPow(CrcByteAff(M8, Len(P), b), n, Len(P)), reg)
+RECURSIVE CrcRegRunsR(_,_,_,_,_)
+CrcRegRunsR(P, M8, runs, i, reg) ==
+  IF i > Len(runs) THEN reg ELSE CrcRegRunsR(P, M8, runs, i+1, CrcRunStep(P, M8, reg, runs[i][1], runs[i][2]))
+CrcRegRuns(P, runs, reg) == CrcRegRunsR(P, CrcByteStepLin(P), runs, 1, reg)
+CrcRuns(P, runs, init, final) == CrcXor(CrcRegRuns(P, runs, init), final)
+Crc32M8 == CrcByteStepLin(Crc32Poly)
+Crc32Runs(runs) == WXor(CrcRegRunsR(Crc32Poly, Crc32M8, runs, 1, Crc32Ones), Crc32Ones)
+\* helpers on run-length encoded strings (counts stay below 2^31)
+RECURSIVE RunsLenR(_,_,_)
+RunsLenR(runs, i, acc) == IF i > Len(runs) THEN acc ELSE RunsLenR(runs, i+1, acc + runs[i][2])
+RunsLen(runs) == RunsLenR(runs, 1, 0)
+RECURSIVE RunsExpandR(_,_,_)
+RunsExpandR(runs, i, acc) ==
+  IF i > Len(runs) THEN acc ELSE RunsExpandR(runs, i+1, acc \o [k \in 1..runs[i][2] |-> runs[i][1]])
+RunsExpand(runs) == RunsExpandR(runs, 1, <<>>)
+RunsCanonical(runs) ==                                   \* maximal runs, none empty: the encoding is unique
+  /\ \A i \in 1..Len(runs) : runs[i][2] >= 1 /\ runs[i][1] \in 0..255
+  /\ \A i \in 1..(Len(runs) - 1) : runs[i][1] # runs[i+1][1]
 
 \* ---- forging: force a CRC-32 by rewriting 4 consecutive bytes ----------------
 \* pos = number of bytes kept in front of the patch (0-based offset of the patch);
